@@ -9,6 +9,7 @@ CFG = {'level': 'exploration',
                'coordinates up to 2^61 and 1e5/3e7 tree/record/hash codec round trips.',
  'level_note': 'Trusts crypto/sha256 and ref/refmerkle (recursive MTH; completion-order index formula StoredCount(rec)+level derived from the '
                'documented append protocol).',
+ 'gomaxprocs': 4,
  'nbatch': {'quick': 16, 'thorough': 64},
  'timeout': {'quick': 300, 'thorough': 3000},
  'rule': 'PRNG record sequences (empty and repeated records included); a class is (stored-hash level | popcount of the tree size whose hash is '
